@@ -58,6 +58,7 @@ type treeSpec struct {
 	StartFile bool      `json:"start_file"` // start the search from a file in the deepest directory
 	Home      string    `json:"home"`       // none | dir | cfg   (user-level ~/.config/regal[/config.yaml])
 	CLI       bool      `json:"cli"`
+	Spell     bool      `json:"spell"` // also ask with other spellings of the start path
 }
 
 var levelNames = []string{"a", "bb", "c", "dd", "e", "ff"}
@@ -109,7 +110,21 @@ func errClass(err error) string {
 	return "other:" + s
 }
 
+// the same search asked for with another spelling of the start path (or of its parent directory)
+type spelledObs struct {
+	Cwd      string `json:"cwd"`    // working directory of the call ("" = irrelevant, the argument is absolute)
+	Arg      string `json:"arg"`    // the path as handed to FindConfig
+	Target   string `json:"target"` // self | parent : which directory the spelling denotes
+	Found    string `json:"found"`
+	FoundErr string `json:"found_err"`
+	RegalDir string `json:"regal_dir"`
+	RegalErr string `json:"regal_dir_err"`
+	YamlFile string `json:"yaml_file"`
+	YamlErr  string `json:"yaml_file_err"`
+}
+
 type treeObs struct {
+	Spelled    []spelledObs `json:"spelled,omitempty"`
 	Spec       treeSpec `json:"spec"`
 	Root       string   `json:"root"`  // absolute path of the tree root
 	Names      []string `json:"names"` // names of the levels below the tree root
@@ -208,6 +223,61 @@ func runTree(id int, work string, regalBin string, spec treeSpec, atRoot bool) t
 	o.Found, o.FoundErr = obs(config.FindConfig(start))
 	o.RegalDir, o.RegalErr = obs(config.FindRegalDirectory(start))
 	o.YamlFile, o.YamlErr = obs(config.FindRegalConfigFile(start))
+
+	if spec.Spell {
+		dirPath := start
+		if spec.StartFile {
+			dirPath = filepath.Dir(start)
+		}
+		parent, base := filepath.Dir(dirPath), filepath.Base(dirPath)
+		tail := ""
+		if spec.StartFile {
+			tail = "/p.rego"
+		}
+		type sp struct{ cwd, arg, target string }
+		var sps []sp
+		if len(spec.Dirs) >= 2 {
+			sps = append(sps,
+				sp{"", parent + "/./" + base + tail, "self"},
+				sp{"", dirPath + "/../" + base + tail, "self"},
+				sp{"", parent + "//" + base + tail, "self"})
+			if !spec.StartFile {
+				sps = append(sps, sp{"", dirPath + "/..", "parent"}, sp{"", dirPath + "/../", "parent"})
+			}
+		}
+		if !spec.StartFile {
+			sps = append(sps, sp{"", dirPath + "/", "self"}, sp{"", dirPath + "/.", "self"})
+		}
+		if atRoot {
+			// relative spellings need the working directory of the process: only in the (sequential) jail
+			rel := strings.TrimPrefix(dirPath, "/")
+			if rel != "" {
+				sps = append(sps, sp{"/", rel + tail, "self"}, sp{"/", "./" + rel + tail, "self"})
+				if len(spec.Dirs) >= 3 {
+					sps = append(sps, sp{parent, base + tail, "self"}, sp{parent, "../" + filepath.Base(parent) + "/" + base + tail, "self"})
+				}
+			}
+			if !spec.StartFile {
+				sps = append(sps, sp{dirPath, ".", "self"})
+				if len(spec.Dirs) >= 2 {
+					sps = append(sps, sp{dirPath, "..", "parent"})
+				}
+			}
+		}
+		for _, x := range sps {
+			if x.cwd != "" {
+				must(os.Chdir(x.cwd))
+			}
+			so := spelledObs{Cwd: x.cwd, Arg: x.arg, Target: x.target}
+			so.Found, so.FoundErr = obs(config.FindConfig(x.arg))
+			so.RegalDir, so.RegalErr = obs(config.FindRegalDirectory(x.arg))
+			so.YamlFile, so.YamlErr = obs(config.FindRegalConfigFile(x.arg))
+			o.Spelled = append(o.Spelled, so)
+			if x.cwd != "" {
+				must(os.Chdir("/"))
+			}
+		}
+	}
 
 	if spec.CLI && regalBin != "" {
 		home := filepath.Join(base, "home")
@@ -341,6 +411,7 @@ func genTrees(rng *hutil.Rng, tier string) []treeSpec {
 	homes := []string{"none", "dir", "cfg"}
 	for i := range specs {
 		s := &specs[i]
+		s.Spell = i%5 == 0
 		cli := false
 		switch {
 		case tier == "thorough":
@@ -450,6 +521,7 @@ func rootTreeMain(outPath, tier, regalBin, specsFile string) {
 		}
 		homes := []string{"none", "dir", "cfg"}
 		for i := range specs {
+			specs[i].Spell = i%3 == 0
 			if len(specs[i].Dirs) == 1 || rng.Below(20) == 0 {
 				specs[i].CLI = true
 				specs[i].Home = homes[rng.Below(3)]
